@@ -6,16 +6,13 @@ Local Open Scope N_scope.
 (* ------------------------------------------------------------------------------------------ *)
 (* print then read                                                                               *)
 (* ------------------------------------------------------------------------------------------ *)
-Lemma dom_inl c x : match x with OSym _ => False | _ => True end -> dom c true x = dom c false x.
-Proof. destruct x; intros H; try reflexivity. contradiction. Qed.
-
 Lemma print_RT c x : in_domain c x = true -> RT x (print c x).
 Proof.
   unfold in_domain. intros H. apply andb_true_iff in H as [Hc Hd]. unfold print. destruct (p_pretty c) eqn:Ep.
   - unfold pretty. destruct x as [| | | | | | |s|xs| | | |].
-    all: try (apply (pretty_RT c Hc Ep); rewrite dom_inl by exact I; exact Hd).
-    + apply (RT_atom c false (OSym s) Hc eq_refl). exact Hd.
-    + destruct xs as [|x xs]; [cbn in Hd; discriminate Hd|]. apply (pretty_RT c Hc Ep). rewrite dom_inl by exact I. exact Hd.
+    all: try (apply (pretty_RT c Hc Ep); exact Hd).
+    + apply (RT_atom c (OSym s) Hc eq_refl). exact Hd.
+    + destruct xs as [|x xs]; [cbn in Hd; discriminate Hd|]. apply (pretty_RT c Hc Ep). exact Hd.
   - apply flat_RT; assumption.
 Qed.
 
@@ -35,38 +32,9 @@ Proof.
   intros H. destruct (read_print c x H) as (y & -> & He & Ht). cbn [roundtrip_ok]. rewrite He, Ht.
   destruct (type_of y); reflexivity.
 Qed.
-(* the model never faults inside the guard, so the comparison function agrees with the theorem *)
-Lemma no_fault_in_domain c x : in_domain c x = true -> print_faults c x = false.
-Proof.
-  intros H. unfold print_faults. destruct (p_pretty c) eqn:Ep; [|reflexivity].
-  destruct (p_case c); try reflexivity. cbn [andb].
-  destruct (negb (is_atom x)) eqn:Ea; [|reflexivity]. cbn [andb].
-  destruct (has_empty_sym x) eqn:Ee; [|reflexivity]. exfalso.
-  unfold in_domain in H. apply andb_true_iff in H as [_ Hd].
-  (* an empty symbol below a list is outside the guard when pretty *)
-  assert (G : forall y, dom c true y = true -> has_empty_sym y = false).
-  { induction y as [y Ha|ys IH|ys tl IH IHtl|ys IH|rank rows IH] using obj_ind'; intros Hy.
-    - destruct y; try discriminate Ha; try reflexivity. destruct bs; [|reflexivity]. cbn in Hy. discriminate Hy.
-    - cbn [dom] in Hy. rewrite dom_all, Ep in Hy. apply andb_true_iff in Hy as [_ Hall]. cbn [has_empty_sym].
-      induction ys as [|z zs IHz]; [reflexivity|]. cbn [forallb] in Hall. apply andb_true_iff in Hall as [Hz Hzs].
-      inversion IH; subst. rewrite (H1 Hz). apply IHz; assumption.
-    - cbn [dom] in Hy. rewrite dom_all, Ep in Hy. apply andb_true_iff in Hy as [Hy _]. apply andb_true_iff in Hy as [Hy Htl].
-      apply andb_true_iff in Hy as [Hy Hat]. apply andb_true_iff in Hy as [_ Hall]. cbn [has_empty_sym].
-      assert (Et : has_empty_sym tl = false) by (apply IHtl; destruct tl; try discriminate Hat; exact Htl). rewrite Et, orb_false_r.
-      clear Et. induction ys as [|z zs IHz]; [reflexivity|]. cbn [forallb] in Hall. apply andb_true_iff in Hall as [Hz Hzs].
-      inversion IH; subst. rewrite (H1 Hz). apply IHz; assumption.
-    - cbn [dom] in Hy. rewrite dom_all, Ep in Hy. apply andb_true_iff in Hy as [_ Hall]. cbn [has_empty_sym].
-      induction ys as [|z zs IHz]; [reflexivity|]. cbn [forallb] in Hall. apply andb_true_iff in Hall as [Hz Hzs].
-      inversion IH; subst. rewrite (H1 Hz). apply IHz; assumption.
-    - cbn [dom] in Hy. rewrite dom_all, Ep in Hy. apply andb_true_iff in Hy as [_ Hall]. cbn [has_empty_sym].
-      induction rows as [|z zs IHz]; [reflexivity|]. cbn [forallb] in Hall. apply andb_true_iff in Hall as [Hz Hzs].
-      inversion IH; subst. rewrite (H1 Hz). apply IHz; assumption. }
-  assert (Hd' : dom c true x = true) by (rewrite dom_inl; [exact Hd|destruct x; try exact I; discriminate Ea]).
-  rewrite (G x Hd') in Ee. discriminate Ee.
-Qed.
 (* hence code 3 of the correspondence cannot arise from the model itself *)
 Theorem model_meets_spec_in_guard c x : in_domain c x = true -> roundtrip_ok x (model_read (model_text c x)) = true.
-Proof. intros H. unfold model_text. rewrite (no_fault_in_domain c x H). cbn [model_read]. apply read_print_ok, H. Qed.
+Proof. intros H. unfold model_text. cbn [model_read]. apply read_print_ok, H. Qed.
 
 (* ------------------------------------------------------------------------------------------ *)
 (* integers, in their own right: every integer, every base                                       *)
@@ -101,6 +69,45 @@ Proof.
 Qed.
 
 (* ------------------------------------------------------------------------------------------ *)
+(* symbols and characters in their own right (after the repairs C03-3 ... C03-13)                *)
+(* ------------------------------------------------------------------------------------------ *)
+(* every ASCII name except t / T, under every print case, flat or pretty: the printed symbol reads back as a
+   symbol equal to it *)
+Theorem symbol_read_print c (name : list byte) : readable_cfg c = true -> forallb (fun b => b <? 128) name = true -> is_t name = false ->
+  exists y, read_all (print c (OSym name)) = Some [y] /\ obj_equal (OSym name) y = true /\ type_of y = TSymbol.
+Proof.
+  intros Hc Ha Ht. assert (Hd : in_domain c (OSym name) = true).
+  { unfold in_domain. rewrite Hc. cbn [andb dom atom_ok]. unfold sym_ok. rewrite Ha, Ht. cbn [orb negb andb]. rewrite !andb_true_r.
+    apply forallb_forall. intros x Hx. rewrite forallb_forall in Ha. specialize (Ha x Hx). lia. }
+  destruct (read_print c _ Hd) as (y & E & He & Hty). exists y. repeat split; [exact E|exact He|symmetry; exact Hty].
+Qed.
+(* with *print-case* nil every name whatsoever (any bytes, the empty name, names of any length) except t / T reads
+   back as the symbol with exactly that name: Symbol.needPipes asks for bars whenever the bare spelling would not
+   do, and the escapes between bars are undone by the reader *)
+Theorem symbol_exact c (name : list byte) : case_is_none c = true -> forallb (fun b => b <? 256) name = true -> is_t name = false ->
+  read_all (symbol_text c name) = Some [OSym name].
+Proof.
+  intros Hn H256 Ht. assert (Ec : forall s, case_name (p_case c) s = s).
+  { intros s. unfold case_is_none in Hn. destruct (p_case c); try discriminate Hn. reflexivity. }
+  destruct name as [|b r].
+  - exact (Reads_read_all _ _ (Reads_pipe [] (fun b (H : In b []) => match H with end))).
+  - unfold symbol_text. rewrite Ec. destruct (need_pipes (b :: r)) eqn:Enp.
+    + assert (HR : Reads ([124] ++ pesc (b :: r) ++ [124]) (TLeaf (LPipe (b :: r)))).
+      { apply Reads_pipe_body, pesc_body. apply Forall_forall. intros x Hx. rewrite forallb_forall in H256. specialize (H256 x Hx). lia. }
+      rewrite (Reads_read_all _ _ HR). reflexivity.
+    + destruct (bare_reads c (b :: r) H256 Enp Ht ltac:(discriminate)) as (y & HR & _). rewrite Ec in HR.
+      rewrite (Reads_read_all _ _ HR). cbn [obj_of_tree]. pose proof (need_pipes_false_resolves c (b :: r) Enp) as Hres.
+      rewrite Ec in Hres. rewrite Hres. reflexivity.
+Qed.
+(* every character (Unicode scalar, the NUL character included) reads back as itself *)
+Theorem character_read_print c r : readable_cfg c = true -> is_scalar r = true -> read_all (print c (OChr r)) = Some [OChr r].
+Proof.
+  intros Hc Hs. assert (Hd : in_domain c (OChr r) = true) by (unfold in_domain; rewrite Hc; exact Hs).
+  destruct (read_print c _ Hd) as (y & E & He & _). rewrite E. destruct y; try discriminate He.
+  cbn [obj_equal] in He. apply N.eqb_eq in He. subst. reflexivity.
+Qed.
+
+(* ------------------------------------------------------------------------------------------ *)
 (* white space                                                                                   *)
 (* ------------------------------------------------------------------------------------------ *)
 (* after any lexeme, any two non-empty runs of blanks / tabs / newlines leave the reader in the same parser state *)
@@ -121,39 +128,23 @@ Proof. apply append_tree_seq. Qed.
 
 Definition with_layout (c : pcfg) (pretty : bool) (margin : N) : pcfg :=
   Pcfg (p_base c) (p_radix c) (p_case c) pretty margin (p_readably c) (p_escape c) (p_array c).
-Lemma sym_ok_inl c c' inl s : p_case c = p_case c' -> sym_ok c true s = true -> sym_ok c' inl s = true.
+(* the guard does not look at the layout variables: the guard of a configuration is the guard of the same
+   configuration printed flat, or pretty with any other margin *)
+Lemma atom_ok_layout c pretty margin x : atom_ok (with_layout c pretty margin) x = atom_ok c x.
+Proof. destruct x; reflexivity. Qed.
+Lemma dom_layout c pretty margin : forall x, dom c x = true -> dom (with_layout c pretty margin) x = true.
 Proof.
-  unfold sym_ok. intros _ H. apply andb_true_iff in H as [H1 H2]. rewrite H1. cbn [andb].
-  destruct s as [|b r]; [discriminate H2|].
-  assert (Hm : forall i, match b :: r with [] => negb i | 58 :: _ => negb (existsb need_pipe (b :: r)) && bare_ok (b :: r)
-               | _ => if existsb need_pipe (b :: r) then forallb pipe_ok_byte (b :: r) && negb i else bare_ok (b :: r) end =
-               (if (b =? 58) then negb (existsb need_pipe (b :: r)) && bare_ok (b :: r)
-                else if existsb need_pipe (b :: r) then forallb pipe_ok_byte (b :: r) && negb i else bare_ok (b :: r))).
-  { intros i. destruct (N.eqb_spec b 58) as [->|Hb]; [reflexivity|]. destruct b as [|p]; [reflexivity|].
-    repeat (destruct p as [p|p|]; try reflexivity). contradiction. }
-  rewrite Hm in *. destruct (b =? 58); [exact H2|]. destruct (existsb need_pipe (b :: r)); [|exact H2].
-  apply andb_true_iff in H2 as [_ H2]. discriminate H2.
-Qed.
-(* the guard of a pretty configuration implies the guard of the same configuration printed flat, and of
-   any other margin *)
-Lemma dom_layout c pretty margin : p_pretty c = true -> forall x inl, dom c true x = true -> dom (with_layout c pretty margin) inl x = true.
-Proof.
-  intros Hp. induction x as [x Ha|xs IH|xs tl IH IHtl|xs IH|rank rows IH] using obj_ind'; intros inl Hd.
-  - destruct x; try discriminate Ha; try exact Hd. cbn [dom atom_ok] in *. eapply sym_ok_inl; [reflexivity|exact Hd].
-  - cbn [dom] in *. rewrite dom_all in *. rewrite Hp in Hd. apply andb_true_iff in Hd as [Hne Hall]. rewrite Hne. cbn [andb].
+  induction x as [x Ha|xs IH|xs tl IH IHtl|xs IH|rank rows IH] using obj_ind'; intros Hd.
+  - destruct x; try discriminate Ha; exact Hd.
+  - cbn [dom] in *. rewrite dom_all in *. apply andb_true_iff in Hd as [Hne Hall]. rewrite Hne. cbn [andb].
     apply forallb_forall. intros y Hy. rewrite Forall_forall in IH. apply IH; [exact Hy|]. rewrite forallb_forall in Hall. apply Hall, Hy.
-  - cbn [dom] in *. rewrite dom_all in *. rewrite Hp in Hd.
+  - cbn [dom] in *. rewrite dom_all in *.
     apply andb_true_iff in Hd as [Hd Hnn]. apply andb_true_iff in Hd as [Hd Htl]. apply andb_true_iff in Hd as [Hd Hat].
-    apply andb_true_iff in Hd as [Hne Hall]. rewrite Hne, Hat, Hnn. cbn [andb].
-    assert (E1 : forallb (dom (with_layout c pretty margin) (p_pretty (with_layout c pretty margin))) xs = true).
-    { apply forallb_forall. intros y Hy. rewrite Forall_forall in IH. apply IH; [exact Hy|]. rewrite forallb_forall in Hall. apply Hall, Hy. }
-    rewrite E1. cbn [andb]. rewrite andb_true_r.
-    assert (E2 : dom (with_layout c pretty margin) (p_pretty (with_layout c pretty margin)) tl = true).
-    { apply IHtl. destruct tl; try discriminate Hat; exact Htl. }
-    destruct tl; try discriminate Hat; exact E2.
-  - cbn [dom] in *. rewrite dom_all in *. rewrite Hp in Hd. apply andb_true_iff in Hd as [Harr Hall]. cbn [with_layout p_array]. rewrite Harr. cbn [andb].
+    apply andb_true_iff in Hd as [Hne Hall]. rewrite Hne, Hat, Hnn, atom_ok_layout, Htl. cbn [andb].
+    rewrite !andb_true_r. apply forallb_forall. intros y Hy. rewrite Forall_forall in IH. apply IH; [exact Hy|]. rewrite forallb_forall in Hall. apply Hall, Hy.
+  - cbn [dom] in *. rewrite dom_all in *. apply andb_true_iff in Hd as [Harr Hall]. cbn [with_layout p_array]. rewrite Harr. cbn [andb].
     apply forallb_forall. intros y Hy. rewrite Forall_forall in IH. apply IH; [exact Hy|]. rewrite forallb_forall in Hall. apply Hall, Hy.
-  - cbn [dom] in *. rewrite dom_all in *. rewrite Hp in Hd. apply andb_true_iff in Hd as [Hd Hall].
+  - cbn [dom] in *. rewrite dom_all in *. apply andb_true_iff in Hd as [Hd Hall].
     cbn [with_layout p_array p_base p_radix]. rewrite Hd. cbn [andb].
     apply forallb_forall. intros y Hy. rewrite Forall_forall in IH. apply IH; [exact Hy|]. rewrite forallb_forall in Hall. apply Hall, Hy.
 Qed.
@@ -162,11 +153,9 @@ Theorem pretty_and_flat_read_alike c x pretty margin : p_pretty c = true -> in_d
   roundtrip_ok x (read_all (print c x)) = true /\
   roundtrip_ok x (read_all (print (with_layout c pretty margin) x)) = true.
 Proof.
-  intros Hp H. split; [apply read_print_ok, H|]. apply read_print_ok.
+  intros _ H. split; [apply read_print_ok, H|]. apply read_print_ok.
   unfold in_domain in *. apply andb_true_iff in H as [Hc Hd]. apply andb_true_iff. split; [exact Hc|].
-  destruct x as [| | | | | | |s| | | | |].
-  8: exact Hd.   (* a symbol at top level: no list around it, the layout plays no part (sym_ok does not look at c) *)
-  all: apply dom_layout; [exact Hp|]; rewrite dom_inl by exact I; exact Hd.
+  apply dom_layout. exact Hd.
 Qed.
 
 (* ------------------------------------------------------------------------------------------ *)
@@ -185,45 +174,44 @@ Definition w_single_float := (cfg_flat, OFlt FSingle [49; 46; 53]).
 Definition w_integral_double := (cfg_flat, OFlt FDouble [49]).
 (* 3/4 in base 2 with *print-radix*: #b11/100 *)
 Definition w_ratio_radix := (Pcfg 2 true CDown false 80 true true true, ORat 3 4).
-(* a 2x2 array with *print-radix*: the rank is printed as an integer, #2.A((1. 2.) (3. 4.)) *)
-Definition w_array_radix := (Pcfg 10 true CDown false 80 true true true, OArr 2 [OList [fx 1; fx 2]; OList [fx 3; fx 4]]).
-(* (|a b| c) with *print-pretty* t: createTree writes symbols without bars *)
-Definition w_pretty_bars := (cfg_pretty, OList [OSym [97; 32; 98]; OSym [99]]).
-(* a? : needPipeMap does not ask for bars, the reader rejects '?' *)
-Definition w_symbol_question := (cfg_flat, OSym [97; 63]).
-(* |123| is printed 123 *)
-Definition w_symbol_numeric := (cfg_flat, OSym [49; 50; 51]).
-(* é (UTF-8 c3 a9): no bars, and the reader rejects bytes above 0x7f outside bars *)
-Definition w_symbol_non_ascii := (Pcfg 10 false CNone false 80 true true true, OSym [195; 169]).
-(* a|b : printed |a|b| *)
-Definition w_symbol_bar := (cfg_flat, OSym [97; 124; 98]).
-(* the symbol named nil is printed nil *)
-Definition w_symbol_nil := (cfg_flat, OSym [110; 105; 108]).
-(* #\( and the character with code 0 *)
-Definition w_char_paren := (cfg_flat, OChr 40).
-Definition w_char_nul := (cfg_flat, OChr 0).
-(* (a |.| b) is printed (a . b) *)
-Definition w_symbol_dot := (cfg_flat, OList [OSym [97]; OSym [46]; OSym [98]]).
-(* the keyword |:a b| is printed :a b *)
-Definition w_keyword_space := (cfg_flat, OSym [58; 97; 32; 98]).
-(* (||) with *print-pretty* t and :capitalize: caseName indexes the first rune of the empty name *)
-Definition w_empty_symbol_capitalize := (Pcfg 10 false CCap true 80 true true true, OList [OSym []]).
+(* the symbol named t is printed t (the suite pins this: the symbol t doubles as the name of the type t) *)
+Definition w_symbol_t := (cfg_flat, OSym [116]).
 
 Definition refutation_witnesses : list (pcfg * obj) :=
-  [w_string_quote; w_single_float; w_integral_double; w_ratio_radix; w_array_radix; w_pretty_bars; w_symbol_question;
-   w_symbol_numeric; w_symbol_non_ascii; w_symbol_bar; w_symbol_nil; w_char_paren; w_char_nul; w_symbol_dot; w_keyword_space;
-   w_empty_symbol_capitalize].
+  [w_string_quote; w_single_float; w_integral_double; w_ratio_radix; w_symbol_t].
 Theorem outside_guard_refuted : forallb (fun w => refuted (fst w) (snd w)) refutation_witnesses = true.
 Proof. vm_compute. reflexivity. Qed.
 (* what the model makes of some of them *)
-Example pretty_bars_reads_three : model_read (model_text (fst w_pretty_bars) (snd w_pretty_bars)) = Some [OList [OSym [97]; OSym [98]; OSym [99]]].
+(* repaired (C03-4): (|a b| c) keeps its bars under *print-pretty* t *)
+Example pretty_keeps_bars : model_text cfg_pretty (OList [OSym [97; 32; 98]; OSym [99]]) = Some [40; 124; 97; 32; 98; 124; 32; 99; 41].
 Proof. vm_compute. reflexivity. Qed.
+(* repaired (C03-5): a|b is printed |a\|b|, the name with a backslash and a bell |\\\u0007| *)
+Example bar_in_name_escaped : model_text cfg_flat (OSym [97; 124; 98]) = Some [124; 97; 92; 124; 98; 124] /\
+  model_text cfg_flat (OSym [92; 7]) = Some [124; 92; 92; 92; 117; 48; 48; 48; 55; 124].
+Proof. vm_compute. split; reflexivity. Qed.
+(* repaired (C03-9): (a |.| b) keeps the bars around the dot *)
+Example dot_symbol_barred : model_text cfg_flat (OList [OSym [97]; OSym [46]; OSym [98]]) = Some [40; 97; 32; 124; 46; 124; 32; 98; 41].
+Proof. vm_compute. reflexivity. Qed.
+(* repaired (C03-10): the symbol named NIL is printed |nil| *)
+Example nil_symbol_barred : model_text cfg_flat (OSym [78; 73; 76]) = Some [124; 110; 105; 108; 124].
+Proof. vm_compute. reflexivity. Qed.
+(* repaired (C03-12): the NUL character is printed #\Null *)
+Example nul_character_named : model_text cfg_flat (OChr 0) = Some [35; 92; 78; 117; 108; 108] /\
+  model_read (model_text cfg_flat (OChr 0)) = Some [OChr 0].
+Proof. vm_compute. split; reflexivity. Qed.
+(* repaired (C03-13): #\( is printed #\u0028 *)
+Example paren_character_by_code : model_text cfg_flat (OChr 40) = Some [35; 92; 117; 48; 48; 50; 56] /\
+  model_read (model_text cfg_flat (OChr 40)) = Some [OChr 40].
+Proof. vm_compute. split; reflexivity. Qed.
 Example integral_double_reads_fixnum : model_read (model_text (fst w_integral_double) (snd w_integral_double)) = Some [OInt false 1].
 Proof. vm_compute. reflexivity. Qed.
-Example array_radix_text : model_text (fst w_array_radix) (snd w_array_radix) =
-  Some [35; 50; 46; 65; 40; 40; 49; 46; 32; 50; 46; 41; 32; 40; 51; 46; 32; 52; 46; 41; 41].
+(* repaired (C03-14): the rank of an array is printed in decimal, the elements follow *print-radix* *)
+Example array_radix_text : model_text (Pcfg 10 true CDown false 80 true true true) (OArr 2 [OList [fx 1; fx 2]; OList [fx 3; fx 4]]) =
+  Some [35; 50; 65; 40; 40; 49; 46; 32; 50; 46; 41; 32; 40; 51; 46; 32; 52; 46; 41; 41].
 Proof. vm_compute. reflexivity. Qed.
-Example empty_symbol_faults : model_text (fst w_empty_symbol_capitalize) (snd w_empty_symbol_capitalize) = None.
+(* repaired (C03-2, C03-4): (||) under :capitalize neither faults nor loses its bars *)
+Example empty_symbol_capitalize_prints :
+  model_text (Pcfg 10 false CCap true 80 true true true) (OList [OSym []]) = Some [40; 124; 124; 41].
 Proof. vm_compute. reflexivity. Qed.
 
 (* ------------------------------------------------------------------------------------------ *)
@@ -237,8 +225,7 @@ Definition ex_obj : obj :=
          OArr 2 [OList [fx 1; fx 2]; OList [fx 3; fx 4]];
          ORat 2 3; ONil; OTrue; OFlt FDouble [49; 46; 53; 100; 43; 48; 48]].
 Definition ex_cfg_flat : pcfg := Pcfg 10 false CUp false 80 true true true.
-(* the same without the ratio and the array (they need base ten without radix), the symbol with a blank
-   at top level of a vector only when flat *)
+(* the same without the ratio (it needs base ten without radix) *)
 Definition ex_obj2 : obj :=
   OList [OList [OSym [102; 111; 111]; OSym [58; 107; 101; 121]];
          OVec [fx 1; fx (-255); OStr [97; 34; 98; 10]; OChr 32; OChr 955];
